@@ -665,6 +665,24 @@ func (ex *Exec) unwrapOnce(st *State, e Iface) (Iface, bool) {
 			return inner.(Iface), true
 		}
 	}
+	// the standard library's wrappers *fs.PathError, *os.LinkError, *os.SyscallError: Unwrap returns the field Err
+	if p, ok := e.T.(*types.Pointer); ok {
+		if n, ok := p.Elem().(*types.Named); ok && n.Obj().Pkg() != nil && (n.Obj().Pkg().Path() == "io/fs" || n.Obj().Pkg().Path() == "os") {
+			if stt, ok := n.Underlying().(*types.Struct); ok {
+				for i := 0; i < stt.NumFields(); i++ {
+					if stt.Field(i).Name() == "Err" {
+						if ptr, ok := e.V.(Ptr); ok && ptr.Obj != 0 {
+							if sv, ok := navGet(st.obj(ptr.Obj).Val, pathElems(ptr.Path)).(StructV); ok {
+								if inner, ok := sv[i].(Iface); ok {
+									return inner, true
+								}
+							}
+						}
+					}
+				}
+			}
+		}
+	}
 	// dynamic types with an Unwrap method are not followed
 	ms := ex.prog.MethodSets.MethodSet(e.T)
 	for i := 0; i < ms.Len(); i++ {
